@@ -210,4 +210,109 @@ Section Proofs.
     unfold hkdf_extract_impl, hkdf_extract_spec, hmacB.
     rewrite hmacB_stream. cbn [concat]. rewrite app_nil_r. reflexivity.
   Qed.
+  (* ---------- HKDF expand ---------- *)
+  Lemma hmacB3 prk T info c :
+    hmacB C h_init h_update h_finish B prk [T; info; [c]] = hmac_spec prk (T ++ info ++ [c]).
+  Proof.
+    unfold hmacB. rewrite hmacB_stream. cbn [concat]. rewrite app_nil_r. reflexivity.
+  Qed.
+
+  Lemma nblocks_small L : 0 < L -> L <= hlen -> kdf_nblocks hlen L = 1.
+  Proof.
+    intros H0 H1. unfold kdf_nblocks.
+    replace (L + hlen - 1) with (1 * hlen + (L - 1)) by lia.
+    rewrite Nat.div_add_l by lia. rewrite Nat.div_small by lia. lia.
+  Qed.
+
+  Lemma nblocks_big L : hlen < L -> kdf_nblocks hlen L = S (kdf_nblocks hlen (L - hlen)).
+  Proof.
+    intros H1. unfold kdf_nblocks.
+    replace (L + hlen - 1) with (1 * hlen + (L - hlen + hlen - 1)) by lia.
+    rewrite Nat.div_add_l by lia. lia.
+  Qed.
+
+  Lemma nblocks_pos L : 0 < L -> 1 <= kdf_nblocks hlen L.
+  Proof.
+    intros H0. unfold kdf_nblocks. apply Nat.div_le_lower_bound; lia.
+  Qed.
+
+  Lemma hkdf_loop_0 fuel prk info T c :
+    hkdf_expand_loop C h_init h_update h_finish B fuel prk info T c 0 = Some [].
+  Proof. destruct fuel; reflexivity. Qed.
+
+  Lemma hkdf_loop_ok fuel prk info T c L :
+    L <= fuel -> 1 <= c -> c + kdf_nblocks hlen L <= 256 ->
+    hkdf_expand_loop C h_init h_update h_finish B fuel prk info T c L
+    = Some (firstn L (hkdf_Ts H B (kdf_nblocks hlen L) prk info T c)).
+  Proof.
+    revert T c L; induction fuel as [|f IH]; intros T c L Hf Hc Hn.
+    - replace L with 0 by lia. reflexivity.
+    - cbn [hkdf_expand_loop]. destruct (L =? 0) eqn:E0.
+      + apply Nat.eqb_eq in E0. subst L. reflexivity.
+      + apply Nat.eqb_neq in E0.
+        replace (c =? 0) with false by (symmetry; apply Nat.eqb_neq; lia).
+        rewrite hmacB3. set (T' := hmac_spec prk (T ++ info ++ [N.of_nat c])).
+        assert (HT' : length T' = hlen) by (unfold T', Hmac.hmac_spec; apply H_len).
+        rewrite HT'.
+        destruct (Nat.le_gt_cases L hlen) as [Hs|Hb].
+        * rewrite Nat.min_r by lia. replace (L - L) with 0 by lia.
+          rewrite hkdf_loop_0, app_nil_r.
+          rewrite nblocks_small by lia. cbn [hkdf_Ts]. fold T'.
+          rewrite app_nil_r. reflexivity.
+        * rewrite Nat.min_l by lia.
+          rewrite nblocks_big in * by lia.
+          pose proof (nblocks_pos (L - hlen) ltac:(lia)) as Hpos.
+          rewrite Nat.mod_small by lia.
+          rewrite IH by lia.
+          cbn [hkdf_Ts]. fold T'.
+          rewrite firstn_app, HT'.
+          assert (Ha : forall n, hlen <= n -> firstn n T' = T')
+            by (intros n Hn'; apply firstn_all2; lia).
+          rewrite !Ha by lia. reflexivity.
+  Qed.
+
+  Lemma hkdf_loop_err fuel prk info T c L :
+    L <= fuel -> 1 <= c <= 256 -> 256 < c + kdf_nblocks hlen L ->
+    hkdf_expand_loop C h_init h_update h_finish B fuel prk info T (c mod 256) L = None.
+  Proof.
+    revert T c L; induction fuel as [|f IH]; intros T c L Hf Hc Hn.
+    - replace L with 0 in Hn by lia. unfold kdf_nblocks in Hn.
+      rewrite Nat.div_small in Hn by lia. lia.
+    - cbn [hkdf_expand_loop]. destruct (L =? 0) eqn:E0.
+      + apply Nat.eqb_eq in E0. subst L. unfold kdf_nblocks in Hn.
+        rewrite Nat.div_small in Hn by lia. lia.
+      + apply Nat.eqb_neq in E0.
+        destruct (Nat.eq_dec c 256) as [->|Hne].
+        * rewrite Nat.mod_same by lia. reflexivity.
+        * rewrite Nat.mod_small by lia.
+          replace (c =? 0) with false by (symmetry; apply Nat.eqb_neq; lia).
+          rewrite hmacB3. set (T' := hmac_spec prk (T ++ info ++ [N.of_nat c])).
+          assert (HT' : length T' = hlen) by (unfold T', Hmac.hmac_spec; apply H_len).
+          rewrite HT'.
+          destruct (Nat.le_gt_cases L hlen) as [Hs|Hb].
+          -- rewrite nblocks_small in Hn by lia. lia.
+          -- rewrite Nat.min_l by lia. rewrite nblocks_big in Hn by lia.
+             rewrite IH; [reflexivity | lia | lia | lia].
+  Qed.
+
+  Theorem hkdf_expand_eq prk info L :
+    L <= 255 * hlen ->
+    hkdf_expand_impl C h_init h_update h_finish B prk info L
+    = Some (hkdf_expand_spec H B hlen prk info L).
+  Proof.
+    intros HL. unfold hkdf_expand_impl, hkdf_expand_spec.
+    apply hkdf_loop_ok; [lia | lia |].
+    assert (kdf_nblocks hlen L < 256); [|lia].
+    unfold kdf_nblocks. apply Nat.div_lt_upper_bound; lia.
+  Qed.
+
+  Theorem hkdf_expand_too_long prk info L :
+    255 * hlen < L -> hkdf_expand_impl C h_init h_update h_finish B prk info L = None.
+  Proof.
+    intros HL. unfold hkdf_expand_impl.
+    change 1 with (1 mod 256) at 1.
+    apply hkdf_loop_err; [lia | lia |].
+    assert (256 <= kdf_nblocks hlen L); [|lia].
+    unfold kdf_nblocks. apply Nat.div_le_lower_bound; lia.
+  Qed.
 End Proofs.
